@@ -18,6 +18,8 @@ type BlockDesc struct {
 	FullHCLEN  bool   `json:"fullhclen"`
 	MaxH       bool   `json:"maxh"` // declare HLit=286, HDist=30
 	SyncBefore bool   `json:"sync"` // write a sync marker (empty stored block) before this block
+	WorstCL    bool   `json:"worstcl"` // dyn: DynOptions.WorstCL (the longest possible header for these code lengths)
+	Alt258     bool   `json:"alt258"`  // fixed/dyn: write length 258 as symbol 284 + extra bits 31
 }
 
 // Fault is one injected fault (or, for "crossRunEdge", a targeted legal shape).
@@ -174,6 +176,7 @@ type tokCfg struct {
 	minDist  int  // smallest distance allowed
 	maxLen   int  // longest match allowed
 	maxOut   int  // stop once the total output reaches this (0 = no limit)
+	alt258   bool // matches of length 258 use symbol 284
 }
 
 // genToks makes tokens that are legal after the output produced so far.
@@ -223,7 +226,9 @@ func (b *builder) genToks(c tokCfg) []Tok {
 				dist = hi
 			}
 		}
-		toks = append(toks, Match(min(length, c.maxLen), dist))
+		m := Match(min(length, c.maxLen), dist)
+		m.Alt = c.alt258
+		toks = append(toks, m)
 		avail += min(length, c.maxLen)
 	}
 	return toks
@@ -244,7 +249,7 @@ func freqs(toks []Tok) (lf, df []int) {
 			lf[t.Lit]++
 			continue
 		}
-		ls, _, _ := LenSym(t.Len)
+		ls, _, _ := TokLenSym(t)
 		ds, _, _ := DistSym(t.Dist)
 		lf[ls]++
 		df[ds]++
@@ -284,7 +289,7 @@ func (b *builder) distCode(shape string, df []int) []uint8 {
 }
 
 func (bd BlockDesc) dynOptions() DynOptions {
-	o := DynOptions{UseRepeat: bd.Repeat, CrossBoundary: bd.Cross, FullHCLEN: bd.FullHCLEN}
+	o := DynOptions{UseRepeat: bd.Repeat, CrossBoundary: bd.Cross, FullHCLEN: bd.FullHCLEN, WorstCL: bd.WorstCL}
 	if bd.MaxH {
 		o.HLit, o.HDist = 286, 30
 	}
@@ -321,7 +326,7 @@ func (b *builder) dynStart(bd BlockDesc, final bool, toks []Tok, lshape, dshape 
 
 func (bd BlockDesc) tokCfg() tokCfg {
 	return tokCfg{kind: bd.Toks, n: bd.N, litsOnly: bd.Type == "dyn" && bd.DShape == "none",
-		single: bd.Type == "dyn" && bd.DShape == "single"}
+		single: bd.Type == "dyn" && bd.DShape == "single", alt258: bd.Alt258}
 }
 
 func (b *builder) bytes(n int) []byte {
@@ -779,6 +784,7 @@ func randomBlock(rng *rand.Rand, maxN int) BlockDesc {
 	if b.Type == "stored" {
 		b.N = min(b.N, 65535)
 	}
+	b.WorstCL, b.Alt258 = flag(4), flag(3)
 	return b
 }
 
